@@ -69,6 +69,35 @@ theorem C01_groundFO_correct_truthFO_partial {P : Prog} {natoms : Nat} {ar : Pre
     have := h2 a hfit hna
     simpa [Mspec, hlen, hin, Tspec] using this
 
+/-- **C03 for the first-order model** (schedule independence) under `SpecOK` alone: the model `M` of
+    `C03_groundFO_schedule_independent_partial` is the well-founded model of the instantiation. -/
+theorem C03_groundFO_schedule_independent_wfm_partial {P : Prog} {natoms : Nat} {ar : Pred → Option Nat} {rk : Nat → Nat}
+    (hs : SpecOK P natoms ar rk) (chosen : Array Bool) (sched1 sched2 : Sched) (fuel1 fuel2 : Nat) (calls : List Call)
+    (o : Opts) (ho : o.keepAll = false) (rss1 rss2 : List Results) (st1 st2 : St)
+    (h1 : groundAll P sched1 fuel1 calls { store := { opts := o } } = .ok (rss1, st1))
+    (h2 : groundAll P sched2 fuel2 calls { store := { opts := o } } = .ok (rss2, st2)) :
+    rss1.length = calls.length ∧ rss2.length = calls.length ∧
+    ∀ i (_hc : i < calls.length) (hr1 : i < rss1.length) (hr2 : i < rss2.length),
+      ∀ r1 ∈ rss1[i], ∀ ρ1, Consistent st1.store ρ1 → Agree chosen st1.store ρ1 →
+        (∃ r2 ∈ rss2[i], r2.1 = r1.1 ∧
+          ∀ ρ2, Consistent st2.store ρ2 → Agree chosen st2.store ρ2 → keyVal ρ2 r2.2 = keyVal ρ1 r1.2) ∨
+        (r1.1 ∉ rss2[i].map (·.1) ∧ keyVal ρ1 r1.2 = false) :=
+  C03_groundFO_schedule_independent_partial P hs.vars chosen _ (mspec_isModelFO hs chosen) sched1 sched2 fuel1 fuel2 calls
+    o ho rss1 rss2 st1 st2 h1 h2
+
+/-- **C08 for the first-order model** (history independence) under `SpecOK` alone. -/
+theorem C08_groundFO_history_independent_wfm_partial {P : Prog} {natoms : Nat} {ar : Pred → Option Nat} {rk : Nat → Nat}
+    (hs : SpecOK P natoms ar rk) (chosen : Array Bool) (sched sched' : Sched) (fuel fuel' : Nat) (calls : List Call)
+    (o : Opts) (ho : o.keepAll = false) (rss : List Results) (st : St) (i : Nat) (hi : i < calls.length) (rs' : Results)
+    (st' : St) (h1 : groundAll P sched fuel calls { store := { opts := o } } = .ok (rss, st))
+    (h2 : groundAll P sched' fuel' [calls[i]] { store := { opts := o } } = .ok ([rs'], st')) :
+    ∃ hr : i < rss.length, ∀ r ∈ rss[i], ∀ ρ, Consistent st.store ρ → Agree chosen st.store ρ →
+      (∃ r' ∈ rs', r'.1 = r.1 ∧
+        ∀ ρ', Consistent st'.store ρ' → Agree chosen st'.store ρ' → keyVal ρ' r'.2 = keyVal ρ r.2) ∨
+      (r.1 ∉ rs'.map (·.1) ∧ keyVal ρ r.2 = false) :=
+  C08_groundFO_history_independent_partial P hs.vars chosen _ (mspec_isModelFO hs chosen) sched sched' fuel fuel' calls
+    o ho rss st i hi rs' st' h1 h2
+
 /-! ### the hypotheses are decidable and satisfiable: the program of `C01_groundFO_correct_example`
 
 `SpecOK` follows from the evaluation of `specOKb` (`Lemmas/GroundFOSpecOK.lean`), so the theorem applies to the
